@@ -1,31 +1,23 @@
 #!/usr/bin/env python3
-# vacuity audit (debugging / evaluation aid, not part of any registered check): for every harness, ask cbmc which source lines of the extracted functions
-# (files under include/) cannot be reached under the harness's preconditions; unreachable code in a function under contract means that its obligations
-# hold vacuously there.  Usage: cover.py [unit ...]   (skips harnesses whose last solver time exceeded VX_COVER_MAX seconds, default 60)
-import sys, os, json, re, subprocess
+# vacuity audit: which source lines of the function under contract (files under include/) cannot be reached in the instrumented harness under its preconditions.
+# Unreachable code in a function under contract means that its obligations hold vacuously there.  One line per function is always reported by cbmc (the entry
+# location of the wrapped original) and is not counted.  Used by the thorough tier of bin/check, and stand-alone:  cover.py [unit ...]
+import sys, os, json, subprocess
 sys.path.insert(0, os.path.dirname(os.path.abspath(__file__)))
 import units, core
-from concurrent.futures import ThreadPoolExecutor
-sel = sys.argv[1:]
-costs = json.load(open(os.path.join(core.VERIF, 'vx', 'costs.json')))
-MAXC = float(os.environ.get('VX_COVER_MAX', '60'))
-jobs = []
-for un in units.all_units():
-    if sel and un not in sel: continue
-    mod = units.load_unit(un)
-    for h in mod.HARNESSES:
-        if costs.get('%s/%s' % (un, h.name), 1) > MAXC or not h.dfcc: continue
-        jobs.append((un, h))
-def one(j):
-    un, h = j
+
+
+def unreached(un, h, timeout=900):
+    """-> (dict file -> sorted list of unreached lines) or (None, reason)"""
     gb = os.path.join(core.OUT, 'units', un, h.name + '.i.gb')
-    if not os.path.exists(gb): return un, h.name, None, 'no binary'
+    if not os.path.exists(gb):
+        return None, 'no binary'
     cmd = ['cbmc', '--cover', 'location', '--json-ui'] + (['--unwind', str(h.unwind)] if h.unwind else []) + [gb]
     try:
-        p = subprocess.run(cmd, capture_output=True, text=True, timeout=900)
+        p = subprocess.run(cmd, capture_output=True, text=True, timeout=timeout)
         data = json.loads(p.stdout)
     except Exception as e:
-        return un, h.name, None, 'error %r' % e
+        return None, 'error %r' % e
     dead = {}
     for item in data:
         for g in item.get('goals', []):
@@ -33,9 +25,31 @@ def one(j):
             f = sl.get('file', '')
             if f.startswith('include/') and g.get('status') != 'satisfied' and sl.get('function') == (h.enforce or ''):
                 dead.setdefault(f, set()).add(int(sl.get('line', 0)))
-    return un, h.name, dead, ''
-with ThreadPoolExecutor(12) as ex:
-    for un, hn, dead, msg in ex.map(one, jobs):
-        if dead is None: print('%-45s %s' % (un + '/' + hn, msg)); continue
-        if dead:
-            print('%-45s UNREACHED %s' % (un + '/' + hn, '; '.join('%s:%s' % (f.split('/')[-1], ','.join([str(x) for x in sorted(l)][:40])) for f, l in dead.items())), flush=True)
+    return {f: sorted(l) for f, l in dead.items()}, ''
+
+
+def costs():
+    try:
+        return json.load(open(os.path.join(core.VERIF, 'vx', 'costs.json')))
+    except Exception:
+        return {}
+
+
+if __name__ == '__main__':
+    from concurrent.futures import ThreadPoolExecutor
+    sel = sys.argv[1:]
+    cs = costs(); maxc = float(os.environ.get('VX_COVER_MAX', '60'))
+    jobs = []
+    for un in units.all_units():
+        if sel and un not in sel:
+            continue
+        mod = units.load_unit(un)
+        for h in mod.HARNESSES:
+            if cs.get('%s/%s' % (un, h.name), 1) <= maxc and h.dfcc and h.enforce:
+                jobs.append((un, h))
+    with ThreadPoolExecutor(12) as ex:
+        for (un, h), (dead, msg) in zip(jobs, ex.map(lambda j: unreached(*j), jobs)):
+            if dead is None:
+                print('%-45s %s' % (un + '/' + h.name, msg))
+            elif sum(len(l) for l in dead.values()) > 1:
+                print('%-45s UNREACHED %s' % (un + '/' + h.name, '; '.join('%s:%s' % (f.split('/')[-1], ','.join(map(str, l[:40]))) for f, l in dead.items())), flush=True)
